@@ -359,3 +359,75 @@ func TestC05_CritShapes(t *testing.T) {
 	}
 	stats.ExhaustivePart("crit value shapes x layers", n)
 }
+
+// TestC05_NestedKeys: header values (label 99, either bucket, every layer kind) that hold maps keyed by arrays or
+// maps - which no Go map can hold - with and without a duplicate key somewhere behind them: whatever a decoder
+// makes of the unusual key, a duplicate key in the same value is not accepted.
+func TestC05_NestedKeys(t *testing.T) {
+	begin(t, "C05", "nestedkeys")
+	arr1 := rc.Array(rc.Int(1))
+	dupInner := rc.Map(rc.E(rc.Text("a"), rc.Int(1)), rc.E(rc.Text("a"), rc.Int(2)))
+	vals := []rc.Val{
+		rc.Map(rc.E(arr1, rc.Int(1)), rc.E(arr1, rc.Int(2))),
+		rc.Map(rc.E(rc.Map(), rc.Int(1)), rc.E(rc.Map(), rc.Int(2))),
+		rc.Array(rc.Map(rc.E(arr1, rc.Int(1))), rc.Map(rc.E(rc.Int(1), rc.Int(1)), rc.E(rc.Int(1), rc.Int(2)))),
+		rc.Map(rc.E(arr1, rc.Int(1)), rc.E(rc.Int(7), dupInner)),
+		rc.Map(rc.E(rc.Int(7), dupInner), rc.E(arr1, rc.Int(1))),
+		rc.Array(dupInner, rc.Map(rc.E(arr1, rc.Int(1)))),
+		rc.Map(rc.E(arr1, rc.Int(1))),
+		rc.Map(rc.E(rc.Map(rc.E(rc.Int(1), rc.Int(2))), rc.Int(1))),
+		rc.Map(rc.E(rc.Bytes([]byte{1}), rc.Int(1)), rc.E(rc.Bytes([]byte{1}), rc.Int(2))),
+		rc.Map(rc.E(rc.Bool(true), rc.Int(1)), rc.E(rc.Bool(true), rc.Int(2))),
+		rc.Map(rc.E(rc.Null, rc.Int(1)), rc.E(rc.Null, rc.Int(2))),
+		rc.Map(rc.E(rc.Float(1.5), rc.Int(1)), rc.E(rc.Float(1.5), rc.Int(2))),
+		rc.Map(rc.E(rc.Tag(99, rc.Int(1)), rc.Int(1)), rc.E(rc.Tag(99, rc.Int(1)), rc.Int(2))),
+	}
+	n := 0
+	for _, v := range vals {
+		for _, inProt := range []bool{false, true} {
+			pm, um := rc.Map(rc.E(rc.Int(1), rc.Int(-7))), rc.Map()
+			if inProt {
+				pm.M = append(pm.M, rc.E(rc.Int(99), v))
+			} else {
+				um.M = append(um.M, rc.E(rc.Int(99), v))
+			}
+			// (keys are emitted in the order given: duplicates must stay next to what hides them)
+			prot := rc.Encode(rc.Bytes(rc.Encode(pm, keepOrder{})), nil)
+			unprot := rc.Encode(um, keepOrder{})
+			layer := func(p, u []byte) []byte { return append(append(append([]byte{0x83}, p...), u...), 0x41, 0x01) }
+			inputs := map[refcose.Kind][][]byte{
+				refcose.KProtected:        {prot},
+				refcose.KUnprotected:      {unprot},
+				refcose.KSign1:            {append(append(append(append([]byte{0xd2, 0x84}, prot...), unprot...), 0x41, 0x70), 0x41, 0x01), append(append([]byte{0xd2, 0x84, 0x40, 0xa1, 0x0b}, layer(prot, unprot)...), 0x41, 0x70, 0x41, 0x01)},
+				refcose.KSign1Untagged:    {append(append(append(append([]byte{0x84}, prot...), unprot...), 0x41, 0x70), 0x41, 0x01)},
+				refcose.KSign:             {append(append(append(append([]byte{0xd8, 0x62, 0x84}, prot...), unprot...), 0x41, 0x70, 0x81), layer([]byte{0x40}, []byte{0xa0})...), append([]byte{0xd8, 0x62, 0x84, 0x40, 0xa0, 0x41, 0x70, 0x81}, layer(prot, unprot)...)},
+				refcose.KSignature:        {layer(prot, unprot)},
+				refcose.KCountersignature: {layer(prot, unprot)},
+			}
+			for _, k := range allKinds {
+				if (k == refcose.KProtected && !inProt) || (k == refcose.KUnprotected && inProt) {
+					continue
+				}
+				for _, w := range inputs[k] {
+					n++
+					stats.Eval()
+					stats.NTBytes(w)
+					judge(t, "c05", mutCase{SeedKind: k, Wire: w, Muts: []gen.Mutation{{Op: "nested-keys/" + v.String()}}}, checkC05)
+				}
+			}
+		}
+	}
+	stats.ExhaustivePart("nested key shapes x bucket x layers", n)
+}
+
+// keepOrder is a chooser that leaves map entries in the order given and uses minimal heads.
+type keepOrder struct{}
+
+func (keepOrder) Width(min int) int { return min }
+func (keepOrder) Perm(n int) []int {
+	p := make([]int, n)
+	for i := range p {
+		p[i] = i
+	}
+	return p
+}
